@@ -249,9 +249,27 @@ func (s *Sched) namedLive() int {
 	return n
 }
 
+// Wait is returned by a Choose function that wants the scheduler to let running goroutines get on (an arrival or a short
+// pause) before it decides.
+var Wait = &G{Name: "<wait>"}
+
+// RunningNamedLocked lists the named goroutines that are neither parked nor finished.  For Choose functions only (they are
+// called with the scheduler's lock held).
+func (s *Sched) RunningNamedLocked() []string {
+	var out []string
+	for _, g := range s.all {
+		if !g.Adopted && g.state == stRunning {
+			out = append(out, g.Name)
+		}
+	}
+	return out
+}
+
 func (s *Sched) pick(p []*G, stepNo int) *G {
 	if s.Choose != nil {
-		if g := s.Choose(p, s.rng); g != nil {
+		if g := s.Choose(p, s.rng); g == Wait {
+			return nil
+		} else if g != nil {
 			return g
 		}
 	}
